@@ -9,6 +9,7 @@ from pedal.assertions.static import (EnsureAssertionFeedback, PreventAssertionFe
 from pedal.cait.cait_node import CaitNode
 from pedal.core.location import Location
 from pedal.core.feedback import Feedback
+from pedal.cait.find_node import COMPARE_OP_NAMES, BOOL_OP_NAMES, BIN_OP_NAMES, UNARY_OP_NAMES
 
 INSTANCE_CLASSES = [EnsureAssertionFeedback, PreventAssertionFeedback, CaitNode, Location, Feedback]
 
@@ -45,3 +46,100 @@ def _check_usage_prevent(self, field_name, uses):
     witness(at_most=at(self.fields, 'at_most'), uses=nitems(uses))
 
 
+# ---------------------------------------------------------------------------------------------
+# finders
+
+@spec
+def is_call_of(node, name):
+    """a Call node whose callee is the attribute `.name` or the plain name `name`"""
+    return ((node.func.ast_name == 'Attribute' and node.func.attr == name)
+            or (node.func.ast_name == 'Name' and node.func.id == name))
+
+
+@spec
+def wf_call_nodes(L):
+    return (is_list(L) and forall(lambda j: is_obj(item(L, j)) and is_obj(item(L, j).func)
+                                  and is_str(item(L, j).func.ast_name)
+                                  and has_attr(item(L, j).func, 'attr') and has_attr(item(L, j).func, 'id'),
+                                  0, nitems(L)))
+
+
+@assumed("pedal.cait.cait_api:parse_program", "CAIT parse of the submission; bounded stand-in B-findall")
+def parse_program(student_code=None, report=None):
+    raises_nothing()
+    ensures(is_obj(result))
+
+
+@spec
+def wf_op_nodes(L):
+    return is_list(L) and forall(lambda j: is_obj(item(L, j)) and is_str(item(L, j).op_name), 0, nitems(L))
+
+
+@assumed("pedal.cait.cait_node:CaitNode.find_all",
+         "returns the nodes of that kind in walk order; checked against ast.walk by the bounded stand-in B-findall")
+def find_all(self, node_type):
+    raises_nothing()
+    ensures(is_list(result) and fresh(result))
+    ensures(implies(node_type == 'Call', wf_call_nodes(result)))
+    ensures(implies(node_type == 'BoolOp' or node_type == 'BinOp' or node_type == 'UnaryOp', wf_op_nodes(result)))
+    ensures(same_seq(items(result), ufun_seq('find_all', self, node_type)))
+
+
+@target("pedal.cait.find_node:find_function_calls")
+def find_function_calls(name, root=None, report=None):
+    requires(is_str(name))
+    requires(instance_of(root, CaitNode))
+    let(found=ufun_seq('find_all', root, 'Call'))
+    define(count_def('calls_of', lambda k: is_call_of(found[k], name)))
+    raises_nothing()
+    invariant(1, "only_matching", forall(lambda j: is_call_of(item(calls, j), name) and item(calls, j) in found,
+                                         0, nitems(calls)))
+    invariant(1, "all_matching_so_far", forall(lambda k: implies(is_call_of(found[k], name), found[k] in items(calls)),
+                                               0, seen))
+    invariant(1, "count", nitems(calls) == count_at('calls_of', seen), modifies=[items(calls)])
+    ensures("only_matching", forall(lambda j: is_call_of(item(result, j), name) and item(result, j) in found,
+                                    0, nitems(result)))
+    ensures("complete", forall(lambda k: implies(is_call_of(found[k], name), found[k] in items(result)),
+                               0, seq_len(found)))
+    ensures("count", nitems(result) == count_at('calls_of', seq_len(found)))
+    ensures(is_list(result) and fresh(result))
+
+
+@spec
+def is_op(node, cls_name):
+    return node.op_name == cls_name
+
+
+@target("pedal.cait.find_node:find_operation")
+def find_operation(op_name, root=None, report=None):
+    """for the Boolean, binary and unary operator families: exactly the nodes of that family whose operator is the
+    class the table names for the symbol, once each, in walk order.  (Comparison chains: see B-findall.)"""
+    requires(is_str(op_name) and instance_of(root, CaitNode))
+    requires("not_a_comparison_symbol", op_name not in COMPARE_OP_NAMES)
+    let(bools=ufun_seq('find_all', root, 'BoolOp'))
+    let(bins=ufun_seq('find_all', root, 'BinOp'))
+    let(unaries=ufun_seq('find_all', root, 'UnaryOp'))
+    define(count_def('bool_hits', lambda k: op_name in BOOL_OP_NAMES and is_op(bools[k], BOOL_OP_NAMES[op_name])))
+    define(count_def('bin_hits', lambda k: op_name in BIN_OP_NAMES and is_op(bins[k], BIN_OP_NAMES[op_name])))
+    define(count_def('unary_hits', lambda k: op_name in UNARY_OP_NAMES and is_op(unaries[k], UNARY_OP_NAMES[op_name])))
+    raises_nothing()
+    invariant(3, "only_matching", forall(lambda j: is_op(item(found, j), BOOL_OP_NAMES[op_name]) and item(found, j) in bools,
+                                         0, nitems(found)))
+    invariant(3, "count", nitems(found) == count_at('bool_hits', seen), modifies=[items(found)])
+    invariant(4, "only_matching", forall(lambda j: is_op(item(found, j), BIN_OP_NAMES[op_name]) and item(found, j) in bins,
+                                         0, nitems(found)))
+    invariant(4, "count", nitems(found) == count_at('bin_hits', seen), modifies=[items(found)])
+    invariant(5, "only_matching", forall(lambda j: is_op(item(found, j), UNARY_OP_NAMES[op_name]) and item(found, j) in unaries,
+                                         0, nitems(found)))
+    invariant(5, "count", nitems(found) == count_at('unary_hits', seen), modifies=[items(found)])
+    ensures(is_list(result) and fresh(result))
+    ensures("boolean_family", implies(op_name in BOOL_OP_NAMES, nitems(result) == count_at('bool_hits', seq_len(bools))
+            and forall(lambda j: is_op(item(result, j), BOOL_OP_NAMES[op_name]) and item(result, j) in bools, 0, nitems(result))))
+    ensures("binary_family", implies(op_name not in BOOL_OP_NAMES and op_name in BIN_OP_NAMES,
+            nitems(result) == count_at('bin_hits', seq_len(bins))
+            and forall(lambda j: is_op(item(result, j), BIN_OP_NAMES[op_name]) and item(result, j) in bins, 0, nitems(result))))
+    ensures("unary_family", implies(op_name not in BOOL_OP_NAMES and op_name not in BIN_OP_NAMES and op_name in UNARY_OP_NAMES,
+            nitems(result) == count_at('unary_hits', seq_len(unaries))
+            and forall(lambda j: is_op(item(result, j), UNARY_OP_NAMES[op_name]) and item(result, j) in unaries, 0, nitems(result))))
+    ensures("unknown_symbol_finds_nothing", implies(op_name not in BOOL_OP_NAMES and op_name not in BIN_OP_NAMES
+                                                    and op_name not in UNARY_OP_NAMES, nitems(result) == 0))
